@@ -26,6 +26,11 @@ EDITS = {
     'H09-early-return': ('datatypes.py', [(r'(def asBoolean\(s\):\n(?:    """.*?"""\n)?)', r'\1    s = str(s)\n', 1)], ['C09'],
                          'asBoolean converts its argument to str first (it already is one)'),
     'H10-url-local': ('loader.py', [(r'\bpathname\b', 'fspath', 0)], ['C18'], 'local renamed in loader.py'),
+    'H11-constuct-rename-local': ('matcher.py', [(r'\bst\b', 'sdef', 0)], ['C02'], 'local renamed in constuct()'),
+    'H12-constuct-extra-if': ('matcher.py', [(r'(            attr = ci\.attribute\n)(            if ci\.ismulti\(\):\n                if ci\.issection\(\):\n                    v = \[\]\n)',
+                                              r'\1            if attr is None:  # defensive\n                continue\n\2', 1)], ['C02', 'C16'],
+                              'a defensive (dead) test inserted in the loop of constuct(): statement ordinals used by the ghost assertions shift'),
+    'H13-parser-rename-local': ('cfgparser.py', [(r'\bprevsection\b', 'outer', 0)], ['C03', 'C07'], 'local renamed in end_section()'),
 }
 
 
